@@ -2019,14 +2019,15 @@ impl Fs {
                     self.synced_entries.swap_remove(p);
                 }
                 PendingOp::Rename { from, to } => {
-                    if from.parent() == Some(path) {
-                        dir_modified = true;
-                        self.synced_entries.swap_remove(from);
-                    }
-                    if to.parent() == Some(path) {
-                        dir_modified = true;
-                        self.synced_entries.insert(to.clone());
-                    }
+                    // The rename is flushed as one operation (the inode moves
+                    // from `from` to `to` below), so both directory entries
+                    // change together: otherwise syncing only the source
+                    // directory leaves the inode without a durable name, and
+                    // syncing only the destination leaves a stale durable
+                    // `from` entry behind.
+                    dir_modified = true;
+                    self.synced_entries.swap_remove(from);
+                    self.synced_entries.insert(to.clone());
                 }
                 _ => {}
             }
